@@ -507,6 +507,24 @@ func selfTestReader() error {
 func drawBlocks(t *rapid.T, mk func(kind int, seed uint64) []byte) []h.B {
 	nb := rapid.IntRange(1, 5).Draw(t, "nblocks")
 	out := make([]h.B, nb)
+	// one stream in eight starts with a LONG run of refused blocks (seeded change
+	// C12-8-2 capped the rejection loop at 101 attempts and then used the last
+	// refused candidate): run lengths on both sides of 8, 16, 32, 64, 100, 128, 256
+	var run []h.B
+	if rapid.IntRange(0, 7).Draw(t, "longRun") == 0 {
+		n := rapid.SampledFrom([]int{6, 9, 15, 17, 31, 33, 63, 65, 99, 100, 101, 102, 127, 129, 255, 257}).Draw(t, "runLen")
+		kinds := []int{kZero, kNm1, kN, kNp1, kMax, kRandGeq}
+		k0 := rapid.IntRange(0, len(kinds)-1).Draw(t, "runKind")
+		mixed := rapid.Bool().Draw(t, "runMixed")
+		rs := rapid.Uint64().Draw(t, "runSeed")
+		for i := 0; i < n; i++ {
+			k := kinds[k0]
+			if mixed {
+				k = kinds[(k0+i)%len(kinds)]
+			}
+			run = append(run, mk(k, rs+uint64(i)))
+		}
+	}
 	for i := range out {
 		var kind int
 		if i == 0 && rapid.IntRange(0, 2).Draw(t, "firstRejected") > 0 {
@@ -518,7 +536,7 @@ func drawBlocks(t *rapid.T, mk func(kind int, seed uint64) []byte) []h.B {
 		}
 		out[i] = mk(kind, rapid.Uint64().Draw(t, "bseed"))
 	}
-	return out
+	return append(run, out...)
 }
 
 func drawChunk(t *rapid.T) int {
